@@ -1,4 +1,3 @@
-//verif:race
 // C06 — key-location index: lookups are sound; entries are displaced
 // oldest-first, never silently; a block release removes exactly the entries
 // pointing into the block.
@@ -12,6 +11,8 @@
 // own Prometheus collectors. Two engines: generated adversarial histories
 // (this file) and an exhaustive small-scope enumeration of all operation
 // sequences, deduplicated by table content (exhaustive.go).
+//
+//verif:race
 package main
 
 import (
@@ -79,12 +80,22 @@ func body(w *run.Worker) {
 	newSUT(&config{size: 1, getA: 1, putA: 1, count: 1, epoch: 1, keys: []local.Key{{}}})
 	mr, err := newMetricsReader()
 	if err != nil {
+		if m, ok := err.(errDiscardCollectorMissing); ok {
+			// "never silently": a discard is reported through the index's
+			// metrics; a collector that is incremented but not registered
+			// (while its sibling is) reports nothing.
+			w.Cases("metrics", 1, func(c *run.Case) {
+				c.Violation("hashingKeyLocationMap:discard-collector-not-registered", "%s", m.Error())
+			})
+			return
+		}
 		w.Inconclusive("cannot read the index's Prometheus collectors: " + err.Error())
 		return
 	}
 	randomEngine(w, mr)
 	exhaustiveEngine(w, mr)
 	concurrentEngine(w)
+	volatileEngine(w, mr)
 }
 
 func flush(w *run.Worker, st *stats) {
